@@ -109,7 +109,7 @@ func payloads() []payload {
 var sentRe = regexp.MustCompile(`S(\d+)E`)
 
 func runC04(res *Result, tier string, seed int64, replay string) {
-	res.Rule = "(1) content matrix, EXHAUSTIVE: 10 content slots (text, button, table cell, raw, navbar link, social element, accordion title/text, title, preview) × 9 placements (column, second column, group, hero, wrapper, middle of three sections, after a chaining section, background-image section, full-width section) × 15 payloads (plain, inline / nested markup, link with &amp;, escaped markup &lt;b&gt;, numeric and hex character references for '<', &amp;, HTML named entities, quotes, <br/>, non-ASCII letters whose case folding changes their byte length, character data whose decoded value looks like a character reference), unique sentinels in reading order; the Lean oracle on the real bytes says which sentinels standard clients see (in order) and which sit only in Outlook blocks; escaped markup must not come out as markup; a document that loses content must return an error. (2) the layout documents of C02/C03 with a sentinel in every slot. Non-trivial = every cell; distinct by (slot, placement, payload)"
+	res.Rule = "(1) content matrix, EXHAUSTIVE: 10 content slots (text, button, table cell, raw, navbar link, social element, accordion title/text, title, preview) × 9 placements (column, second column, group, hero, wrapper, middle of three sections, after a chaining section, background-image section, full-width section) × 15 payloads (plain, inline / nested markup, link with &amp;, escaped markup &lt;b&gt;, numeric and hex character references for '<', &amp;, HTML named entities, quotes, <br/>, non-ASCII letters whose case folding changes their byte length, character data whose decoded value looks like a character reference), unique sentinels in reading order; + size payloads in every slot (one unbroken 70 KB token, 70 KB of white space or line breaks, 300 KB of words, 72 KB of CJK text, a 96 KB data URI inside markup); the Lean oracle on the real bytes says which sentinels standard clients see (in order) and which sit only in Outlook blocks; escaped markup must not come out as markup; a document that loses content must return an error. (2) the layout documents of C02/C03 with a sentinel in every slot. Non-trivial = every cell; distinct by (slot, placement, payload)"
 	drv, err := startDriverPool(12)
 	if err != nil {
 		res.Disagree(Violation{Sig: "driver-missing", What: err.Error()})
@@ -129,6 +129,28 @@ func runC04(res *Result, tier string, seed int64, replay string) {
 					continue // head slots do not depend on the body placement and hold text only
 				}
 				cells = append(cells, cell{s, p, pl})
+			}
+		}
+	}
+	// size: content far larger than any internal buffer or token limit (64 KiB scanners, 4 KiB read buffers): one unbroken token,
+	// one run of white space, a long data URI inside markup, many short words — in every slot, in the plain column placement
+	if replay == "" {
+		big := map[string]string{
+			"token-70k":       "S1E " + strings.Repeat("x", 70000) + " S2E",
+			"spaces-70k":      "S1E" + strings.Repeat(" ", 70000) + "S2E",
+			"words-300k":      "S1E " + strings.Repeat("lorem ipsum ", 25000) + "S2E",
+			"cjk-72k":         "S1E" + strings.Repeat("日本語", 8000) + "S2E",
+			"token-4097":      "S1E " + strings.Repeat("y", 4097) + " S2E",
+			"newlines-70k":    "S1E" + strings.Repeat("\n", 70000) + "S2E",
+			"data-uri-markup": `S1E <img src="data:image/png;base64,` + strings.Repeat("QUJD", 24000) + `"/> S2E`,
+		}
+		for _, sl := range slotKinds() {
+			for name, text := range big {
+				if sl.head && name == "data-uri-markup" {
+					continue
+				}
+				pl := payload{name: "size:" + name, text: text, nSent: 2, markup: name == "data-uri-markup"}
+				cells = append(cells, cell{sl, placements()[0], pl})
 			}
 		}
 	}
